@@ -88,6 +88,12 @@ type world struct {
 	q     quartz.JobQueue
 	sched quartz.Scheduler
 	byJD  map[*quartz.JobDetail]*minted
+	// entry objects by id: a Push call that names an id used before pushes the SAME object again
+	// (the object a Pop/Remove/Get handed out, or one still inside the queue)
+	byID map[int]quartz.ScheduledJob
+	// share: after every call the queue's entry objects are also pushed into a second default queue
+	// (legal: ScheduledJobs hands out the stored objects), which must not disturb the first one
+	share bool
 }
 
 func newWorld() *world {
@@ -96,7 +102,7 @@ func newWorld() *world {
 	if err != nil {
 		panic(err)
 	}
-	return &world{q: q, sched: s, byJD: map[*quartz.JobDetail]*minted{}}
+	return &world{q: q, sched: s, byJD: map[*quartz.JobDetail]*minted{}, byID: map[int]quartz.ScheduledJob{}}
 }
 
 func errClass(err error) string {
@@ -255,6 +261,9 @@ func (w *world) run(c call) (text string) {
 			prio = math.MaxInt64 // ScheduleJob parks suspended jobs
 		}
 		head = fmt.Sprintf("P%c %d %d %d %d %d", via, c.key, prio, b01(c.susp), b01(c.repl), c.id)
+		if sj, again := w.byID[c.id]; again && via == 'h' {
+			return head + " > " + errClass(w.q.Push(sj))
+		}
 		opts := quartz.NewDefaultJobDetailOptions()
 		opts.Replace, opts.Suspended = c.repl, c.susp
 		jd := quartz.NewJobDetailWithOptions(noopJob{}, jobKey(c.key), opts)
@@ -263,7 +272,9 @@ func (w *world) run(c call) (text string) {
 		if via == 's' {
 			err = w.sched.ScheduleJob(jd, fixedTrigger{c.prio})
 		} else {
-			err = w.q.Push(quartz.VerifNewScheduledJob(jd, fixedTrigger{c.prio}, prio))
+			sj := quartz.VerifNewScheduledJob(jd, fixedTrigger{c.prio}, prio)
+			w.byID[c.id] = sj
+			err = w.q.Push(sj)
 		}
 		return head + " > " + errClass(err)
 	case 'O', 'H':
@@ -340,14 +351,33 @@ func writeTables(w *bufio.Writer) {
 	}
 }
 
+// shareStep pushes the queue's entry objects into a fresh second queue (in reverse order, so that they sit at
+// other heap positions there) and pops one of them: nothing of this may show in the first queue.
+func (w *world) shareStep() {
+	defer func() { _ = recover() }()
+	l, err := w.q.ScheduledJobs(nil)
+	if err != nil {
+		return
+	}
+	q2 := quartz.NewJobQueue()
+	for i := len(l) - 1; i >= 0; i-- {
+		_ = q2.Push(l[i])
+	}
+	_, _ = q2.Pop()
+}
+
 func runSeq(out *bufio.Writer, id string, calls []call, snapshot bool) {
 	w := newWorld()
+	w.share = strings.HasSuffix(id, "x")
 	parts := make([]string, 0, 2*len(calls))
 	for _, c := range calls {
 		r := w.run(c)
 		parts = append(parts, r)
 		if strings.HasSuffix(r, "PANIC") {
 			break
+		}
+		if w.share {
+			w.shareStep()
 		}
 		if snapshot && c.kind != 'A' {
 			r = w.run(call{kind: 'A'})
@@ -415,6 +445,19 @@ func cmdRandom(seed int64, nseq, maxlen int, path string) {
 				if r.Intn(4) == 0 {
 					via = 's'
 				}
+				if r.Intn(6) == 0 {
+					// push an entry object used before in this sequence once more (same id, same fields)
+					var earlier []call
+					for _, c0 := range calls {
+						if c0.kind == 'P' && c0.via == 'h' {
+							earlier = append(earlier, c0)
+						}
+					}
+					if len(earlier) > 0 {
+						calls = append(calls, earlier[r.Intn(len(earlier))])
+						continue
+					}
+				}
 				calls = append(calls, call{kind: 'P', via: via, key: r.Intn(nk), prio: prios[r.Intn(np)],
 					susp: r.Intn(4) == 0, repl: r.Intn(100) < replW, id: nextID})
 				nextID++
@@ -444,7 +487,11 @@ func cmdRandom(seed int64, nseq, maxlen int, path string) {
 				}
 			}
 		}
-		runSeq(out, "r"+strconv.Itoa(s), calls, true)
+		sid := "r" + strconv.Itoa(s)
+		if s%5 == 4 {
+			sid += "x" // entry objects shared with a second queue after every call
+		}
+		runSeq(out, sid, calls, true)
 	}
 	out.Flush()
 	f.Close()
